@@ -127,7 +127,7 @@ def gen_observation(rng, tier: str, *, stochastic_p: float = 0.3, sleep_p: float
             a["stateful"] = True
         if rng.random() < mutate_p:
             a["mutate"] = True
-            a.setdefault("vec", [1, 2])
+            a["mvec"] = [1.0, 2.0]
             a["extra"] = {"k": 1}
     stochastic = rng.random() < stochastic_p
     if stochastic:
@@ -386,7 +386,7 @@ def shrink_observation(scn: dict):
         yield c
     # strip optional probe features
     for g, m in world.all_models(s):
-        for feat in ("sleep", "stateful", "mutate", "draws", "vec", "use_fields"):
+        for feat in ("sleep", "stateful", "mutate", "mvec", "extra", "draws", "vec", "use_fields"):
             if feat in m["arguments"] and f".{m['name']}.arguments.{feat}" not in keys:
                 c = copy.deepcopy(s)
                 for g2, m2 in world.all_models(c):
